@@ -326,20 +326,25 @@ var redactionFlagWires = []flagWire{
 }
 
 func c01FlagWiring(c *Ctx, r *Report, an *Anchors) {
-	cl := an.RedactClosure
 	r.Floor("C01-R5", len(redactionFlagWires), "flag->setter->global chains")
+	flagWireRule(c, r, an, "C01-R5", redactionFlagWires)
+}
+
+// flagWireRule: flag variable -> setter argument (unmodified) -> global, before processing.
+func flagWireRule(c *Ctx, r *Report, an *Anchors, rule string, wires []flagWire) {
+	cl := an.RedactClosure
 	procKeys := c.processingCallKeys()
-	for _, w := range redactionFlagWires {
+	for _, w := range wires {
 		construct := fmt.Sprintf("%s:wire(--%s->%s->%s)", cl.Name(), w.flag, w.setter, w.global)
 		setter := c.Fn(w.setter)
 		g := c.GlobalVar(w.global)
 		if setter == nil || g == nil {
-			r.Undecided("C01-R5", construct, "-", "setter or global not found")
+			r.Undecided(rule, construct, "-", "setter or global not found")
 			continue
 		}
 		calls := callsIn(cl, func(k string, _ *ssa.Call) bool { return k == fnFullName(setter) })
 		if len(calls) == 0 {
-			r.Bad("C01-R5", construct, c.Pos(cl.Pos()), "the setter is never called by the redact command: the flag has no effect")
+			r.Bad(rule, construct, c.Pos(cl.Pos()), "the setter is never called by the redact command: the flag has no effect")
 			continue
 		}
 		var bad []string
@@ -386,7 +391,7 @@ func c01FlagWiring(c *Ctx, r *Report, an *Anchors) {
 		if !stores {
 			bad = append(bad, "setter does not store its parameter into "+w.global)
 		}
-		r.Check(len(bad) == 0, "C01-R5", construct, c.InstrPos(calls[0]), "flag variable -> setter argument -> global read by the walkers, before processing", strings.Join(bad, "; "))
+		r.Check(len(bad) == 0, rule, construct, c.InstrPos(calls[0]), "flag variable -> setter argument -> global read by the walkers, before processing", strings.Join(bad, "; "))
 	}
 }
 
